@@ -143,6 +143,14 @@ def families(tier):
         for blocking in [True, False]:
             C.append(src_fan_out(pout=pout, blocking=blocking))
             C.append(src_fan_out(pout=pout, blocking=blocking, caps=(1, 2), delays=(20, 2)))
+    # several workers finishing in the same instant in front of several out-edges (reserve on all, cancel the rest)
+    for wc, iat, pd, caps, slow in [(2, (0, 0, 0, 0, 0, 0), (3,), (1, 1), (5, 0)), (2, (0, 0, 0, 0), (2,), (1, 1), (0, 7)),
+                                    (3, (0, 0, 0, 1, 0, 0), (4,), (1, 2), (6, 6)), (2, (1, 0, 1, 0, 1, 0), (2, 2, 3), (1, 1), (9, 2))]:
+        for one_sink in (False, True):
+            c = fan_out(pout="FIRST_AVAILABLE", iat=iat, wc=wc, pd=pd, caps=caps, slow=slow, one_sink=one_sink)
+            c["edges"][0]["cap"] = 3
+            c["family"] = "fan-out/simultaneous-workers"
+            C.append(c)
     # combiner / splitter
     for recipe, cb, spb, spout in itertools.product([(1, 1), (1, 2)], [True, False], [True, False],
                                                      ["FIRST_AVAILABLE", "ROUND_ROBIN"]):
@@ -190,7 +198,10 @@ def random_config(rng, i):
         c = fan_in(pin=pol(2), iat1=iat, iat2=tuple(rng.choice([1, 2, 6]) for _ in range(4)), wc=rng.randint(1, 2), pd=pd,
                    caps=(rng.randint(1, 2), rng.randint(1, 2)), T=T, mb=rng.random() < 0.7)
     elif kind == "fanout":
-        c = fan_out(pout=pol(2), iat=iat, wc=rng.randint(1, 2), pd=pd, caps=(rng.randint(1, 2), rng.randint(1, 2)), T=T,
+        if rng.random() < 0.4:
+            iat = tuple(rng.choice([0, 0, 1]) for _ in range(rng.randint(3, 7)))
+            pd = (rng.choice([1, 2, 4]),)
+        c = fan_out(pout=pol(2) if rng.random() < 0.6 else "FIRST_AVAILABLE", iat=iat, wc=rng.randint(1, 3), pd=pd, caps=(rng.randint(1, 2), rng.randint(1, 2)), T=T,
                     mb=rng.random() < 0.5, one_sink=rng.random() < 0.4, slow=(rng.choice([0, 5]), rng.choice([0, 9])))
     elif kind == "srcfan":
         b = rng.random() < 0.5
